@@ -99,3 +99,95 @@ def spec(cfg, i, path):
     if path.outcome != 'ret': return False
     if path.value == 'not applicable': return None
     return path.value == ('conflict detected' if cfg['foreign'] else 'flushed')
+
+
+# ------------------------------------------------------------------ attributes that occupy several columns (references to composite keys)
+BOUND_MC = 'one entity with 5 readable attributes, two of them references to 2- and 3-column keys; every subset of them read (32) x 8 columns changed by somebody else (or none) x values present / missing'
+_MC = None
+
+
+def model_mc():
+    global _MC
+    if _MC is None:
+        db = orm.Database('sqlite', ':memory:')
+
+        class Account(db.Entity):
+            bank = orm.Required(str)
+            number = orm.Required(int)
+            orm.PrimaryKey(bank, number)
+            wallets = orm.Set('Wallet')
+
+        class Region(db.Entity):
+            a = orm.Required(int)
+            b = orm.Required(int)
+            c = orm.Required(int)
+            orm.PrimaryKey(a, b, c)
+            wallets = orm.Set('Wallet')
+
+        class Wallet(db.Entity):
+            id = orm.PrimaryKey(int)
+            first = orm.Optional(int)
+            account = orm.Optional(Account)
+            mid = orm.Optional(str, nullable=True)
+            region = orm.Optional(Region)
+            balance = orm.Optional(int)
+            note = orm.Optional(str)                 # the attribute the session writes
+        db.generate_mapping(create_tables=True)
+        with orm.db_session:
+            for bank in ('x', 'y'):
+                for number in (1, 2): Account(bank=bank, number=number)
+            for a in (1, 2):
+                for b in (1, 2):
+                    for c in (1, 2): Region(a=a, b=b, c=c)
+        _MC = types.SimpleNamespace(db=db, Account=Account, Region=Region, Wallet=Wallet)
+    return _MC
+
+
+MC_ATTRS = ('first', 'account', 'mid', 'region', 'balance')
+MC_COLUMNS = {'first': 'first', 'account_bank': 'account', 'account_number': 'account', 'mid': 'mid', 'region_a': 'region', 'region_b': 'region', 'region_c': 'region', 'balance': 'balance'}
+MC_FOREIGN = {'first': 9, 'account_bank': 'y', 'account_number': 2, 'mid': 'other', 'region_a': 2, 'region_b': 2, 'region_c': 2, 'balance': 0}
+
+
+def mc_configs(tier):
+    import itertools
+    subsets = [s for k in range(6) for s in itertools.combinations(MC_ATTRS, k)]
+    return [dict(read='+'.join(s) or '-', changed=ch, missing=m, op=op) for s in subsets for ch in ('nothing',) + tuple(MC_COLUMNS) for m in (False, True) for op in ('update',)]          # (a DELETE carries no optimistic criteria in pony, and the property speaks of updates)
+
+
+def mc_case(cfg, values):
+    def call():
+        M = model_mc(); W = M.Wallet
+        read = [] if cfg['read'] == '-' else cfg['read'].split('+')
+        _reset()
+        with orm.db_session:
+            M.db.execute('delete from Wallet')
+            if cfg['missing']: M.db.execute("insert into Wallet(id, note) values (1, 'n')")
+            else: M.db.execute("insert into Wallet(id, first, account_bank, account_number, mid, region_a, region_b, region_c, balance, note) values (1, 1, 'x', 1, 'm', 1, 1, 1, 100, 'n')")
+        ch = cfg['changed']
+        try:
+            with orm.db_session:
+                o = W[1]
+                for a in read: getattr(o, a)
+                if ch != 'nothing':
+                    if cfg['missing'] and MC_COLUMNS[ch] in ('account', 'region'):          # a missing reference becomes a complete one (all its columns)
+                        cols = [c for c, a in MC_COLUMNS.items() if a == MC_COLUMNS[ch]]
+                        M.db.execute('update Wallet set %s where id = 1' % ', '.join('%s = %r' % (c, MC_FOREIGN[c]) for c in cols))
+                    else: M.db.execute('update Wallet set %s = %r where id = 1' % (ch, MC_FOREIGN[ch]))
+                if cfg['op'] == 'update': o.note = 'written by the session'
+                else: o.delete()
+                orm.flush()
+                outcome = 'flushed'
+        except (core.OptimisticCheckError, core.UnrepeatableReadError):
+            outcome = 'conflict detected'
+        finally:
+            _reset()
+        return outcome
+    return Case(call, {}, [], lambda r: _reset(), lambda r: _reset())
+
+
+def mc_spec(cfg, i, path):
+    """a foreign change of any column of an attribute the session has read is a conflict; of an attribute it has not read, it is not"""
+    if path.outcome != 'ret': return False
+    read = [] if cfg['read'] == '-' else cfg['read'].split('+')
+    conflict = cfg['changed'] != 'nothing' and MC_COLUMNS[cfg['changed']] in read
+    return path.value == ('conflict detected' if conflict else 'flushed')
